@@ -45,12 +45,14 @@ def check(ctx: Ctx) -> str:
         sets = [n for n in ast.walk(mb.node) if isinstance(n, ast.Assign) and ast.unparse(n.targets[0]) == f"macro_ref.{flag}" and ast.unparse(n.value) == "True"]
         ctx.check(len(sets) == 1, f"flag:{flag}", "compiler:CodeGenerator.macro_body", f"{flag} set once", f"macro_body must set macro_ref.{flag} exactly where it declares the implicit parameter {name}", mb.loc())
     rt_guards = {"caller": "self.caller and (not found_caller)", "kwargs": "self.catch_kwargs", "varargs": "self.catch_varargs"}
+    rt_atoms = {"caller": [("self.caller", True), ("found_caller", False)], "kwargs": [("self.catch_kwargs", True)], "varargs": [("self.catch_varargs", True)]}
     for c in [c for c in astq.calls(mc.node) if astq.callee(c) == "arguments.append"]:
         a = ast.unparse(c.args[0])
         key = "caller" if a == "caller" else "kwargs" if a == "kwargs" else "varargs" if a.startswith("args[") else None
         if key:
             gs = [g for g, pol in astq.guard_texts(mc.node, c) if pol]
-            ctx.check(rt_guards[key] in gs, f"rt-guard:{key}", "runtime:Macro.__call__", f"{key} appended under {gs}", f"Macro.__call__ must pass {key} exactly when `{rt_guards[key]}`", mc.loc(c))
+            at_ = astq.guard_atoms(mc.node, c)
+            ctx.check(rt_guards[key] in gs or all(a_ in at_ for a_ in rt_atoms[key]), f"rt-guard:{key}", "runtime:Macro.__call__", f"{key} appended under {gs}", f"Macro.__call__ must pass {key} exactly when `{rt_guards[key]}`", mc.loc(c))
 
     ctx.rule("R2", "emitted Macro(environment, macro, name, arguments, accesses_kwargs, accesses_varargs, accesses_caller, autoescape) lines up with Macro.__init__(environment, func, name, arguments, catch_kwargs, catch_varargs, caller, default_autoescape)")
     init = repo.func("runtime:Macro.__init__")
